@@ -72,6 +72,9 @@ fn main() {
                 println!("[{}] {} => {:?}", f.status, f.signature, sigs);
             }
         }
+        "c03one" => {
+            props::c03::child_one(&args[2]);
+        }
         "c04one" => {
             props::scen::child_main(args[2].parse().unwrap(), args[3].parse().unwrap(), args[4].parse().unwrap());
         }
